@@ -112,7 +112,7 @@ class NetWorld(World):
                 "vertical_exact": r.choice([0, 0, 0.02]), "subnet": r.choice([0, 0.03, 0.1]),
                 "int_ids": (not road) and r.random() < 0.3,
                 "reweigh": r.choice([0, 0.05, 0.15]), "routing": r.choice([0, 0, 0.04, 0.1]),
-                "empty_id": r.random() < 0.15, "travel_time": r.random() < 0.3,
+                "empty_id": r.random() < 0.15, "travel_time": r.random() < 0.3, "dense": r.random() < 0.08,
                 "tiny_w": (not road) and (not hub) and r.random() < 0.12,
                 "tmode": r.choice(["inc", "inc", "rev", "same"]), "persist": r.choice([0, 0, 0.05, 0.12]),
                 "rescale": r.choice([0, 0.05, 0.15]),
@@ -343,7 +343,8 @@ class NetWorld(World):
             if r.random() < 0.05:
                 return {"op": "inspect_edge", "s": s, "e": r.randrange(64),
                         "how": r.choice(["constraint", "wkt", "length", "bbox", "bbox", "net_bbox", "copy", "noise",
-                                         "simplify", "tail", "all_copy", "all_copy"])}
+                                         "simplify", "tail", "all_copy", "all_copy", "net_deepcopy",
+                                         "net_deepcopy"])}
             u = r.random()
             if u < self.cfg.get("reweigh", 0) and not self.cfg["road"]:
                 return {"op": "set_weight", "s": s, "e": r.randrange(64),
@@ -408,7 +409,11 @@ class NetWorld(World):
                 return {"op": "all_pairs", "s": s, "cut": self._gen_cut(r, m), "own": r.random() < 0.4,
                         "cut2": self._gen_cut(r, m) if r.random() < 0.3 else None}
             if op == "prepare":
-                return {"op": "prepare", "s": s, "cut": self._gen_cut(r, m)}
+                st = {"op": "prepare", "s": s, "cut": self._gen_cut(r, m)}
+                if r.random() < max(self.cfg["fault_rate"], 0.05) * 0.5:
+                    # the user interrupts a long preparation (Ctrl-C) and goes on working with the network
+                    st["fault"] = {"kind": "interrupt", "at": int(round(10 ** r.uniform(0, 3.0)))}
+                return st
             return {"op": "prepared", "s": s, "a": r.randrange(64), "b": r.randrange(64)}
         if fam == "C07":
             if r.random() < (0.6 if self.cfg.get("hub") else 0.3):
@@ -454,7 +459,8 @@ class NetWorld(World):
                     "radius": self._gen_radius(r), "tcost": r.choice([1, 10])}
         st = {"op": "map", "s": s, "slot": slot, "obs": self._gen_track(r, m), "noise": r.choice([1, 10, 50]),
               "z": self.cfg.get("alt", 0.0) if r.random() < 0.7 else 0.0, "tmode": self.cfg.get("tmode", "inc"),
-              "radius": self._gen_radius(r), "tcost": r.choice([1, 10]), "coll": r.random() < 0.3}
+              "radius": self._gen_radius(r), "tcost": r.choice([1, 10]), "coll": r.random() < 0.3,
+              "scribble": r.random() < 0.15}
         if r.random() < 0.1:
             st.update({"defaults": True, "noise": 50, "tcost": 10, "radius": 50})      # mapOnNetwork(tracks, network)
         elif r.random() < 0.15:
@@ -482,7 +488,7 @@ class NetWorld(World):
 
     def _gen_radius(self, r):
         st = self.cfg["step"]
-        return r.choice([1.0, 5.0, st / 2, st, 3 * st, 5e-4])
+        return r.choice([1.0, 5.0, st / 2, st, 3 * st, 5e-4, 1.0, 5.0, st / 2, st, 3 * st, 0])
 
     def _g_add_edge(self, r, s, m):
         cfg = self.cfg
@@ -504,10 +510,14 @@ class NetWorld(World):
             a, b = "n%d_%d" % (i, j), "n%d_%d" % (i2, j2)
             pa, pb = npos(i, j), npos(i2, j2)
             mids = []
-            for k in range(r.choice([0, 0, 1, 2])):
-                f = (k + 1) / 3
-                mids.append([pa[0] + (pb[0] - pa[0]) * f + r.uniform(-2, 2),
-                             pa[1] + (pb[1] - pa[1]) * f + r.uniform(-2, 2)])
+            nm = r.choice([0, 0, 1, 2])
+            if cfg.get("dense") and r.random() < 0.4:
+                nm = r.choice([40, 70, 120])        # a road digitised densely (a GPS trace turned into an edge)
+            for k in range(nm):
+                f = (k + 1) / (max(nm, 2) + 1)
+                w_ = 2 if nm <= 2 else 0.2
+                mids.append([pa[0] + (pb[0] - pa[0]) * f + r.uniform(-w_, w_),
+                             pa[1] + (pb[1] - pa[1]) * f + r.uniform(-w_, w_)])
             if mids and r.random() < 0.2:
                 k = r.randrange(len(mids))
                 mids.insert(k, list(mids[k]))          # repeated vertex: a legal zero-length segment
@@ -791,7 +801,41 @@ class NetWorld(World):
         other entry stays what it was -- the model keeps the very same table."""
         net, m = self._sess_exact(st)
         cut = st["cut"]
-        _, exc = self.call(net.prepare, cut, False)
+        fault = st.get("fault")
+        if fault:
+            self.fs.plan.arm(fault)
+            self.stats["fault_armed:interrupt"] += 1
+            with simfs.Interrupter(self.fs.plan, traced=("/tracklib/core/network.py",)):
+                _, exc = self.call(net.prepare, cut, False)
+            fired = self.fs.plan.fired
+            self.fs.plan.clear()
+            if fired:
+                # whatever the table holds now is an entry it held before or the true distance of a pair
+                # within the cut-off (entries are final when they are written); the model takes it over
+                self.stats["fault_fired:interrupt"] += 1
+                self.probe("interrupted_preparation")
+                if exc is None:
+                    self.probe("fault_swallowed_by_call")
+                old = dict(m["ptable"] or {})
+                got = dict(net.DISTANCES) if net.DISTANCES is not None else None
+                if got is not None:
+                    true = self._pairs(m, cut)
+                    for k, v in sorted(got.items(), key=repr):
+                        if (k in old and self._deq(m, v, old[k])) or (k in true and self._deq(m, v, true[k])):
+                            continue
+                        self.fail("C06", "table.value", "prepared table after an interrupted prepare(cut=%s): entry "
+                                  "of pair %s is neither the one it held nor a true distance within the cut-off"
+                                  % (cut, list(k)), true.get(k, old.get(k)), v)
+                        return "fault"
+                    if any(k not in got for k in old):
+                        self.fail("C06", "table.pairs", "prepared table after an interrupted prepare(cut=%s): entries "
+                                  "it held are gone" % cut, len(old), len(got))
+                        return "fault"
+                    m["ptable"] = got
+                    m["prepared"] = cut if m["prepared"] is None else max(m["prepared"], cut)
+                return "fault"
+        else:
+            _, exc = self.call(net.prepare, cut, False)
         if exc is not None:
             return self._unexpected("C06", exc, "prepare(cut=%s)" % cut)
         if m["prepared"] is None:
@@ -1233,6 +1277,28 @@ class NetWorld(World):
                 # the box belongs to the caller, who enlarges and moves it (a map frame)
                 _, exc = self.call(lambda: (bb.addMargin(0.05), bb.translate(1.5, -2.0)))
                 self.probe("caller_edits_returned_bbox_in_place")
+        elif how == "net_deepcopy":
+            # another user takes a deep copy of the whole network and edits the copy (junctions moved,
+            # geometries shifted, roads re-weighted): the copy is his
+            import copy as _copy
+            cp, exc = self.call(_copy.deepcopy, net)
+            if exc is None:
+                def edit():
+                    done = set()
+                    for i in cp.getNodesId():
+                        c = cp.getNode(i).coord
+                        if id(c) not in done:
+                            done.add(id(c))
+                            c.setX(c.getX() + 5.0)
+                    for i in cp.getEdgesId():
+                        ed = cp.getEdge(i)
+                        ed.weight = ed.weight + 1.0
+                        for o in ed.geom:
+                            if id(o.position) not in done:
+                                done.add(id(o.position))
+                                o.position.setY(o.position.getY() - 3.0)
+                _, exc = self.call(edit)
+                self.probe("deep_copy_of_the_network_edited")
         elif how == "copy":
             cp, exc = self.call(g.copy)
             if exc is None:
@@ -1708,6 +1774,19 @@ class NetWorld(World):
         for k2, v in self.tracks.items():
             if any(v["real"] is g for g, _ in group):
                 v["radius"], v["z"] = (50 if st.get("defaults") else radius), st.get("z", v.get("z", 0.0))
+        if st.get("scribble"):
+            # the matched points belong to the caller: he moves them in place (a "snapped" track shifted
+            # for display); the states of these tracks are not looked at again, the network must not move
+            for g, ob in group:
+                for k in range(len(ob)):
+                    inf = g["hmm_inference", k]
+                    if inf[1] != -1:
+                        inf[0].setX(inf[0].getX() + 3.0)
+                        inf[0].setY(inf[0].getY() - 2.0)
+            for k2, v in self.tracks.items():
+                if any(v["real"] is g for g, _ in group):
+                    v.pop("radius", None)
+            self.probe("caller_edits_matched_points_in_place")
         # every track matched earlier (by this or another session) still carries the states that
         # were decoded for *it*: a matching never reaches into another track
         for k2, v in sorted(self.tracks.items()):
